@@ -46,6 +46,24 @@ pub fn observe(wasm: &[u8], cfg: &mut ModuleConfig) -> std::result::Result<Obser
 /// Independent normal form of an operator stream (names + Coq terms): drop nop, cut each sequence
 /// after its first unconditional transfer, give every `if` an `else`. Written against the
 /// property text, not against the model. Returns the list of kept operator terms.
+/// Which operators of a body survive nop / dead-code elision (same walk as `normal_form`).
+pub fn live_mask(ops: &[(Option<String>, usize, &'static str)]) -> Vec<bool> {
+    let mut mask = vec![false; ops.len()]; let mut frames: Vec<(bool, bool, bool)> = vec![(false, false, false)]; let mut drop_depth: Option<usize> = None;
+    for (k, (_, _, name)) in ops.iter().enumerate() {
+        if let Some(d) = drop_depth { match *name { "Block" | "Loop" | "If" => frames.push((false, false, true)), "End" => { frames.pop(); if frames.len() == d { drop_depth = None; } } _ => {} } continue; }
+        let dead = frames.last().map(|f| f.2).unwrap_or(false);
+        match *name {
+            "Nop" => {}
+            "Block" | "Loop" | "If" => { if dead { drop_depth = Some(frames.len()); frames.push((false, false, true)); } else { mask[k] = true; frames.push((*name == "If", false, false)); } }
+            "Else" => { if let Some(f) = frames.last_mut() { f.1 = true; f.2 = false; } mask[k] = true; }
+            "End" => { frames.pop(); mask[k] = true; }
+            "Br" | "BrTable" | "Return" | "Unreachable" => { if !dead { mask[k] = true; if let Some(f) = frames.last_mut() { f.2 = true; } } }
+            _ => { if !dead { mask[k] = true; } }
+        }
+    }
+    mask
+}
+
 pub fn normal_form(ops: &[(Option<String>, usize, &'static str)]) -> Vec<String> {
     // frames: (is_if_without_else_yet, dead)
     let mut out: Vec<String> = vec![]; let mut frames: Vec<(bool, bool, bool)> = vec![(false, false, false)]; // (is_if, saw_else, dead)
